@@ -133,10 +133,20 @@ def build(sheets, names=None, date1904=False, hidden=(), norefs=()):
     sheet_parts = [sheet_xml(cells, sst) for _, cells in sheets]
     # norefs: titles of sheets written without the (optional) r attributes of
     # rows and cells - their cells must fill the rows from A1 on without gaps
+    # (norefs may be a dict title -> 'all' | 'constants': with 'constants'
+    # the formula cells and the rows keep their r, a writer that states the
+    # position only where it has a reason to)
     for i, (title, cells) in enumerate(sheets):
         if title in norefs:
-            sheet_parts[i] = re.sub(r'<(c|row) r="[A-Z]*[0-9]+"', r'<\1',
-                                    sheet_parts[i])
+            mode = norefs[title] if isinstance(norefs, dict) else 'all'
+            if mode == 'all':
+                sheet_parts[i] = re.sub(r'<(c|row) r="[A-Z]*[0-9]+"',
+                                        r'<\1', sheet_parts[i])
+            else:
+                sheet_parts[i] = re.sub(
+                    r'<c r="[A-Z]+[0-9]+"((?:(?!</c>).)*</c>)',
+                    lambda m: m.group(0) if '<f' in m.group(1)
+                    else '<c' + m.group(1), sheet_parts[i], flags=re.S)
     wb = ['<?xml version="1.0" encoding="UTF-8" standalone="yes"?>\n'
           '<workbook xmlns="http://schemas.openxmlformats.org/spreadsheetml/'
           '2006/main" xmlns:r="http://schemas.openxmlformats.org/'
@@ -152,6 +162,12 @@ def build(sheets, names=None, date1904=False, hidden=(), norefs=()):
     if names:
         wb.append('<definedNames>')
         for name, target in names.items():
+            if isinstance(name, tuple):
+                # (name, index of the sheet it is defined for)
+                wb.append('<definedName name="%s" localSheetId="%d">%s'
+                          '</definedName>' % (escape(name[0]), name[1],
+                                              escape(target)))
+                continue
             wb.append('<definedName name="%s">%s</definedName>'
                       % (escape(name), escape(target)))
         wb.append('</definedNames>')
